@@ -266,7 +266,7 @@ def minimise(scn, plan, viol, known, want_known=None, budget_s=60):
 
 def write_replay(prop, plan, viol, scn, subdir=None):
     out = execute_guarded(scn, plan, keep_log=True)
-    d = os.path.join(VERIF, "replays", subdir or prop)
+    d = os.path.join(os.environ.get("VERIF_REPLAY_DIR") or os.path.join(VERIF, "replays"), subdir or prop)
     os.makedirs(d, exist_ok=True)
     doc = dict(plan)
     doc["format"] = 1
@@ -463,14 +463,17 @@ def run_check(prop, tier):
     zero = [k for k in getattr(scn, "EXPECTED_PROBES", []) if not probes.get(k)]
     if zero:
         print("note: reach probes at zero in this run: %s" % ", ".join(zero))
+    if viol_lines:
+        # a violation with its replay file stands on its own; harness trouble is reported next to it
+        for e in harness_errors:
+            print("HARNESS-WARNING %s" % e)
+        for line in viol_lines:
+            print(line)
+        return 1
     if harness_errors:
         for e in harness_errors:
             print("HARNESS-ERROR %s" % e)
         return 2
-    if viol_lines:
-        for line in viol_lines:
-            print(line)
-        return 1
     if agg["runs"] == 0:
         print("HARNESS-ERROR no runs executed")
         return 2
